@@ -96,6 +96,9 @@ def typed_calls(rng: random.Random, full: bool) -> Iterator[Tuple[str, str, List
     for p in ([], [1, 2, 3], {'b': 2}, {'a': 1, 'c': 3}, {'a': 1, 'b': 2, 'c': 3}, [1, 2, 3, 4]):
         yield 'unbound', 'ok', p
         yield 'unbound', 'view.vm', p
+    for t in (0, 1, 2, 3, 5):
+        yield 'slow', 'slow', [f's{t}', t]
+    yield 'slow', 'slow', {'v': 'sk', 'ticks': 2}
     for p in ([1], {'x': 1}):
         yield 'factory', 'fac1', p
     for p in ([1], [1, 2], {'x': 1, 'y': 2}, {'x': 1, 'z': 3}, {'x': 1, 'y': 2, 'z': 3}):
@@ -152,7 +155,7 @@ def singles(rng: random.Random, full: bool) -> Iterator[Tuple[str, str]]:
 
 # ---- batches ----------------------------------------------------------------------------------------
 
-ELEMENT_KINDS = ['call_ok', 'call_unknown', 'call_unbound', 'call_rpcerr', 'call_typed', 'call_exc', 'call_view',
+ELEMENT_KINDS = ['call_slow', 'call_ok', 'call_unknown', 'call_unbound', 'call_rpcerr', 'call_typed', 'call_exc', 'call_view',
                  'notify_ok', 'notify_unknown', 'notify_unbound', 'notify_rpcerr', 'notify_exc',
                  'invalid_obj', 'scalar', 'nullid_call']
 ID_SCHEMES = ['int', 'mixed', 'exotic']
@@ -171,6 +174,8 @@ def make_element(kind: str, pos: int, scheme: str = 'int') -> Any:
     i = element_id(scheme, pos)
     if kind == 'call_ok':
         return obj(id=i, method='ok', params=[tok])
+    if kind == 'call_slow':
+        return obj(id=i, method='slow', params=[tok, max(0, 3 - pos)])    # earlier elements finish later
     if kind == 'call_view':
         return obj(id=i, method='view.vm', params={'a': tok})
     if kind == 'call_unknown':
@@ -212,7 +217,7 @@ def batches(rng: random.Random, max_exhaustive_len: int, sampled: int, max_len: 
     for _ in range(sampled):
         n = rng.randint(max_exhaustive_len + 1, max_len)
         # mostly valid elements so that long batches are accepted often
-        pool = ELEMENT_KINDS if rng.random() < 0.3 else ELEMENT_KINDS[:12]
+        pool = ELEMENT_KINDS if rng.random() < 0.3 else ELEMENT_KINDS[:13]
         kinds = [rng.choice(pool) for _ in range(n)]
         yield f'batch-sampled', dumps([make_element(k, p, rng.choice(ID_SCHEMES)) for p, k in enumerate(kinds)]), n
     # all-notification batches of every length
